@@ -792,3 +792,396 @@ Proof.
     rewrite Hp. exact I.
   - intros Hl i t' Hi1 Hi2. lia.
 Qed.
+
+(* ------------------------------------------------------------------ *)
+(* 5. minimize-balanced                                                *)
+(* ------------------------------------------------------------------ *)
+
+Lemma all_red_len : forall t, wf t -> all_reducible t -> tc_len t = zlen (tc_parts t).
+Proof.
+  intros t Hwf Ha. unfold tc_len, count_false.
+  assert (H : filter negb (tc_red t) = []).
+  { unfold all_reducible in Ha. induction Ha as [|b l Hb _ IH]; [reflexivity|].
+    subst b. cbn [filter negb]. exact IH. }
+  rewrite H. unfold zlen. cbn [length]. lia.
+Qed.
+
+Lemma subred_all_true : forall l l', subred l l' ->
+  Forall (fun x : bytes * bool => snd x = true) l -> Forall (fun x : bytes * bool => snd x = true) l'.
+Proof.
+  intros l l' H. induction H as [|x l l' H IH|p l l' H IH]; intros HF.
+  - exact HF.
+  - inversion HF as [|x0 l0 Hx Hl]; subst. constructor; [exact Hx | apply IH; exact Hl].
+  - inversion HF as [|x0 l0 Hx Hl]; subst. apply IH. exact Hl.
+Qed.
+
+Lemma all_red_sub : forall t t', wf t -> all_reducible t -> sub_reducible t t' -> all_reducible t'.
+Proof.
+  intros t t' Hwf Ha (_ & _ & Hwf' & Hs). unfold all_reducible in *.
+  rewrite <- (zipped_red t Hwf) in Ha. rewrite Forall_map in Ha.
+  rewrite <- (zipped_red t' Hwf'). rewrite Forall_map.
+  exact (subred_all_true _ _ Hs Ha).
+Qed.
+
+Lemma tables_gen : forall (g : bytes -> Z * Z * Z) (l pre : list bytes),
+  flat_mapM (fun i => p <- py_index (pre ++ l) i ;; Ok [g p])
+            (map Z.of_nat (seq (length pre) (length l))) = Ok (map g l).
+Proof.
+  intros g l. induction l as [|x l IH]; intros pre; [reflexivity|].
+  cbn [length seq map flat_mapM].
+  change (Z.of_nat (length pre)) with (zlen pre). rewrite py_index_mid. cbn [bind].
+  specialize (IH (pre ++ [x])). rewrite <- app_assoc in IH. cbn [app] in IH.
+  rewrite app_length in IH. cbn [length] in IH.
+  replace (length pre + 1)%nat with (S (length pre)) in IH by lia.
+  rewrite IH. cbn [bind app]. reflexivity.
+Qed.
+
+Lemma tables_eq : forall (g : bytes -> Z * Z * Z) (l : list bytes),
+  flat_mapM (fun i => p <- py_index l i ;; Ok [g p]) (py_range (zlen l)) = Ok (map g l).
+Proof.
+  intros g l. unfold py_range, zlen. rewrite Nat2Z.id. exact (tables_gen g l []).
+Qed.
+
+Lemma py_index_ok : forall (A : Type) (l : list A) i x, 0 <= i -> py_index l i = Ok x ->
+  nth_error l (Z.to_nat i) = Some x /\ i < zlen l.
+Proof.
+  intros A l i x Hi H. unfold py_index in H. cbv zeta in H.
+  destruct (i <? 0) eqn:E0; [lia|].
+  destruct ((i <? 0) || (zlen l <=? i)) eqn:E1; [discriminate H|].
+  destruct (nth_error l (Z.to_nat i)) as [y|] eqn:En; [|discriminate H].
+  injection H as H. subst y. split; [reflexivity | lia].
+Qed.
+
+Lemma py_slice_from_Z : forall (A : Type) (l : list A) k, 0 <= k ->
+  py_slice l (Some k) None = skipn (Z.to_nat k) l.
+Proof.
+  intros A l k Hk. rewrite <- (Z2Nat.id k) at 1 by lia. apply py_slice_from_nat.
+Qed.
+
+Lemma scan_partner : forall ps idx n, zero3 n = false ->
+  partner_from ps (idx + 1) n =
+  (let '(rhs, nf) := partner_scan (repeat true (length ps)) (map bdiff ps) idx n in
+   if zero3 nf then Some rhs else None).
+Proof.
+  intros ps. induction ps as [|p r IH]; intros idx n Hn.
+  - cbn [length repeat map partner_scan partner_from]. rewrite Hn. reflexivity.
+  - cbn [length repeat map partner_from].
+    destruct (bdiff p) as [[c q] d] eqn:Eb. destruct n as [[nc nq] nr].
+    cbn [partner_scan negb add3 neg3]. cbv beta iota zeta.
+    destruct ((nc + c <? 0) || (nq + q <? 0) || (nr + d <? 0)) eqn:Eneg.
+    + assert (Hz : zero3 (nc + c, nq + q, nr + d) = false) by (cbn [zero3]; lia).
+      rewrite Hz. reflexivity.
+    + destruct (zero3 (nc + c, nq + q, nr + d)) eqn:Ez.
+      * cbn [zero3] in Ez. rewrite Ez. cbn [zero3]. rewrite Ez. reflexivity.
+      * cbn [zero3] in Ez. rewrite Ez. apply IH. cbn [zero3]. exact Ez.
+Qed.
+
+Lemma partner_from_range : forall ps j n r, partner_from ps j n = Some r -> j <= r < j + zlen ps.
+Proof.
+  intros ps. induction ps as [|p l IH]; intros j n r H; cbn [partner_from] in H; [discriminate H|].
+  unfold zlen. cbn [length].
+  destruct (neg3 (add3 n (bdiff p))); [discriminate H|].
+  destruct (zero3 (add3 n (bdiff p))).
+  - injection H as H. lia.
+  - apply IH in H. unfold zlen in H. lia.
+Qed.
+
+Lemma partner_mode : forall parts lhs p rhs n,
+  0 <= lhs < zlen parts -> nth_error parts (Z.to_nat lhs) = Some p -> zero3 (bdiff p) = false ->
+  partner_scan (py_slice (repeat true (length parts)) (Some (lhs + 1)) None)
+               (py_slice (map bdiff parts) (Some (lhs + 1)) None) lhs (bdiff p) = (rhs, n) ->
+  partner parts lhs = if zero3 n then Some rhs else None.
+Proof.
+  intros parts lhs p rhs n Hl Hp Hz Hs. unfold zlen in Hl.
+  rewrite py_slice_from_alltrue in Hs by lia.
+  rewrite py_slice_from_Z in Hs by lia.
+  rewrite skipn_map in Hs.
+  replace (Z.to_nat (lhs + 1)) with (S (Z.to_nat lhs)) in Hs by lia.
+  replace (length parts - S (Z.to_nat lhs))%nat with (length (skipn (S (Z.to_nat lhs)) parts)) in Hs
+    by (rewrite skipn_length; reflexivity).
+  unfold partner. rewrite Hp. unfold balanced_atom. rewrite Hz.
+  rewrite (scan_partner _ lhs (bdiff p) Hz). rewrite Hs. reflexivity.
+Qed.
+
+Lemma partner_range : forall parts i j, 0 <= i -> partner parts i = Some j -> i < j < zlen parts.
+Proof.
+  intros parts i j Hi H. unfold partner in H.
+  destruct (nth_error parts (Z.to_nat i)) as [p|] eqn:Ep; [|discriminate H].
+  destruct (balanced_atom p); [discriminate H|].
+  apply partner_from_range in H.
+  assert (Hlt : (Z.to_nat i < length parts)%nat) by (apply nth_error_Some; congruence).
+  unfold zlen in *. rewrite skipn_length in H. lia.
+Qed.
+
+Section Balanced.
+Variable f : bytes -> bool.
+
+(* both moves at atom i have been rejected *)
+Definition cov (best : tcase) (i : Z) : Prop :=
+  (forall p t', nth_error (tc_parts best) (Z.to_nat i) = Some p -> balanced_atom p = true ->
+                rmslice best i (i + 1) = Ok t' -> f (content t') = false) /\
+  (forall j t', partner (tc_parts best) i = Some j -> rm2 best i j = Ok t' ->
+                f (content t') = false).
+
+(* a pass at chunk size 1 that has not accepted anything yet *)
+Record B1 (s : pstate) (best : tcase) : Prop := {
+  b1_sum : p_summary s = repeat true (Z.to_nat (tc_len best));
+  b1_tab : p_tables s = map bdiff (tc_parts best);
+  b1_cst : p_chunk_start s = p_i1 s;
+  b1_lhs : 0 <= p_i1 s;
+  b1_cov : forall i, 0 <= i < p_i1 s -> cov best i
+}.
+
+Definition BI (s : pstate) (best : tcase) : Prop :=
+  PB s /\
+  match p_phase s with
+  | PTop => True
+  | PLoop => p_chunk_size s = 1 -> p_any s = false -> B1 s best
+  | PAfter => p_chunk_size s = 1 -> p_any s = false -> pf_balanced_fixpoint f best
+  end.
+
+Lemma cov_all_fixpoint : forall best,
+  (forall i, 0 <= i < tc_len best -> cov best i) -> pf_balanced_fixpoint f best.
+Proof.
+  intros best H _. split.
+  - intros i p t' Hi. exact (proj1 (H i Hi) p t').
+  - intros i j t' Hi. exact (proj2 (H i Hi) j t').
+Qed.
+
+Lemma BI_bal_true : forall s sm cst t, PB s -> BI (bal_next s true sm cst) t.
+Proof.
+  intros s sm cst t HB. unfold bal_next.
+  destruct (s_index sm (p_i1 s + 1)); (split; [apply PB_upd; exact HB|]); pcbn;
+    intros _ Habs; discriminate Habs.
+Qed.
+
+Lemma BI_bal_rej : forall s best, PB s -> wf best ->
+  (p_chunk_size s = 1 -> p_any s = false -> B1 s best /\ cov best (p_i1 s)) ->
+  BI (bal_next s (p_any s) (p_summary s) (p_chunk_start s + p_chunk_size s)) best.
+Proof.
+  intros s best HB Hwf H. pose proof (tc_len_nonneg best Hwf) as Hlen. unfold bal_next.
+  destruct (s_index (p_summary s) (p_i1 s + 1)) as [l|] eqn:El;
+    (split; [apply PB_upd; exact HB|]); pcbn; intros Hc1 Hany;
+    destruct (H Hc1 Hany) as [[Hsum Htab Hcs Hl Hcov] Hnew].
+  - rewrite Hsum in El. apply s_index_alltrue_some in El; [|lia]. destruct El as [El _].
+    constructor; pcbn.
+    + exact Hsum.
+    + exact Htab.
+    + lia.
+    + lia.
+    + intros i Hi. destruct (Z.eq_dec i (p_i1 s)) as [He|Hn];
+        [subst i; exact Hnew | apply Hcov; lia].
+  - rewrite Hsum in El. apply s_index_alltrue_none in El; [|lia].
+    apply cov_all_fixpoint. intros i Hi.
+    destruct (Z.eq_dec i (p_i1 s)) as [He|Hn]; [subst i; exact Hnew | apply Hcov; lia].
+Qed.
+
+Lemma balanced_pass_start : forall s best s', PB s -> wf best -> all_reducible best ->
+  pass_start KBalanced s best = Ok s' -> BI s' best.
+Proof.
+  intros s best s' HB Hwf Hall H. unfold pass_start in H.
+  destruct (divide_rounding_up (tc_len best) (p_chunk_size s)) as [v|e] eqn:Ed;
+    cbn [bind] in H; [|discriminate H].
+  destruct (v <? 2) eqn:E2.
+  - injection H as H. subst s'. split; [apply PB_upd; exact HB|]. pcbn. intros Hc1 _.
+    rewrite Hc1 in Ed. apply dru_one in Ed. subst v. intros H2. lia.
+  - match type of H with context [flat_mapM ?F ?L] =>
+      destruct (flat_mapM F L) as [tb|e] eqn:Et end; cbn [bind] in H; [|discriminate H].
+    injection H as H. subst s'. destruct HB as [Hd Hc Hf].
+    split; [constructor; pcbn; assumption|]. pcbn.
+    intros Hc1 _. rewrite Hc1 in Ed. apply dru_one in Ed. subst v.
+    constructor; pcbn.
+    + reflexivity.
+    + rewrite (all_red_len best Hwf Hall) in Et.
+      pose proof (tables_eq bdiff (tc_parts best)) as Ht.
+      assert (HE : Ok tb = Ok (map bdiff (tc_parts best))) by (rewrite <- Et; exact Ht).
+      injection HE as HE. exact HE.
+    + reflexivity.
+    + lia.
+    + intros i Hi. lia.
+Qed.
+
+Lemma balanced_body_ok : forall s best,
+  BI s best -> p_phase s = PLoop -> p_chunk_start s < tc_len best ->
+  wf best -> all_reducible best -> nonempty_parts best ->
+  match balanced_body s best with
+  | ICont s2 => BI s2 best
+  | IStep (Propose t k) =>
+      sub_reducible best t /\
+      (forall o, o <> Tested true ->
+         ((length (content t) < length (content best))%nat -> f (content t) = false) ->
+         BI (k o) best) /\
+      BI (k (Tested true)) t
+  | IStep (Fail _) => True
+  | IStep _ => False
+  end.
+Proof.
+  intros s best [HB HP] Hph Hcond Hwf Hall Hne. rewrite Hph in HP.
+  pose proof (pb_cs _ HB) as Hc. pose proof (tc_len_nonneg best Hwf) as Hlen.
+  pose proof (all_red_len best Hwf Hall) as Hlp.
+  unfold balanced_body. cbv zeta.
+  destruct (negb (s_count (p_summary s) 0 (p_i1 s) * p_chunk_size s =? p_chunk_start s)) eqn:Eas;
+    [exact I|].
+  assert (Hcst0 : 0 <= p_chunk_start s).
+  { assert (H0 : 0 <= s_count (p_summary s) 0 (p_i1 s)) by (unfold s_count; apply zlen_nonneg).
+    apply negb_false_iff in Eas. apply Z.eqb_eq in Eas. nia. }
+  destruct (nth_table (p_tables s) (p_i1 s)) as [n0|e] eqn:En; [|exact I].
+  assert (Hmode : p_chunk_size s = 1 -> p_any s = false ->
+            B1 s best /\ exists p, nth_error (tc_parts best) (Z.to_nat (p_i1 s)) = Some p /\
+                                   n0 = bdiff p /\ p_i1 s < tc_len best).
+  { intros Hc1 Hany. pose proof (HP Hc1 Hany) as HB1. split; [exact HB1|].
+    destruct HB1 as [Hsum Htab Hcs Hl Hcov]. unfold nth_table in En. rewrite Htab in En.
+    destruct (py_index_ok _ _ _ _ Hl En) as [Hn Hlt]. rewrite nth_error_map in Hn.
+    destruct (nth_error (tc_parts best) (Z.to_nat (p_i1 s))) as [p|] eqn:Ep;
+      [|discriminate Hn].
+    cbn [option_map] in Hn. injection Hn as Hn. exists p. split; [reflexivity|].
+    split; [symmetry; exact Hn | lia]. }
+  rewrite copy_id.
+  assert (Hr2 : 0 <= p_chunk_start s <= Z.min (tc_len best) (p_chunk_start s + p_chunk_size s))
+    by lia.
+  destruct (zero3 n0) eqn:Ez.
+  - (* a balanced atom: propose deleting it *)
+    destruct (rmslice best (p_chunk_start s) (Z.min (tc_len best) (p_chunk_start s + p_chunk_size s)))
+      as [t|e] eqn:E1; [|exact I].
+    destruct (rm_nonneg best _ _ t Hwf Hr2 E1) as (Hwft & Hsub & _ & _ & Hlt).
+    split; [exact Hsub|]. split; [|apply BI_bal_true; exact HB].
+    intros o Ho Hf.
+    assert (Hrej : BI (bal_next s (p_any s) (p_summary s) (p_chunk_start s + p_chunk_size s)) best).
+    { apply BI_bal_rej; [exact HB | exact Hwf |]. intros Hc1 Hany.
+      destruct (Hmode Hc1 Hany) as [HB1 (p & Hp & Hn0 & Hlt1)]. split; [exact HB1|].
+      destruct HB1 as [Hsum Htab Hcs Hl Hcov]. split.
+      - intros p' t' Hp' Hbal Hrm.
+        rewrite Hcs in E1.
+        replace (Z.min (tc_len best) (p_i1 s + p_chunk_size s)) with (p_i1 s + 1) in E1 by lia.
+        rewrite E1 in Hrm. injection Hrm as Hrm. subst t'. apply Hf.
+        apply Hlt; [exact Hne | lia].
+      - intros j t' Hpart. unfold partner in Hpart. rewrite Hp in Hpart.
+        unfold balanced_atom in Hpart. rewrite <- Hn0, Ez in Hpart. discriminate Hpart. }
+    destruct o as [|[|]]; [exact Hrej | exfalso; apply Ho; reflexivity | exact Hrej].
+  - (* an unbalanced atom: look for its partner *)
+    match goal with |- context [partner_scan ?a ?b ?c ?d] =>
+      destruct (partner_scan a b c d) as [rhs n] eqn:Es end.
+    assert (Hpm : p_chunk_size s = 1 -> p_any s = false ->
+              partner (tc_parts best) (p_i1 s) = if zero3 n then Some rhs else None).
+    { intros Hc1 Hany. destruct (Hmode Hc1 Hany) as [[Hsum Htab Hcs Hl Hcov] (p & Hp & Hn0 & Hlt1)].
+      rewrite Hsum, Htab, Hn0 in Es.
+      replace (Z.to_nat (tc_len best)) with (length (tc_parts best)) in Es
+        by (rewrite Hlp; unfold zlen; rewrite Nat2Z.id; reflexivity).
+      apply (partner_mode (tc_parts best) (p_i1 s) p rhs n); [lia | exact Hp | | exact Es].
+      rewrite <- Hn0. exact Ez. }
+    destruct (negb (zero3 n)) eqn:Ezn.
+    + (* no partner: advance *)
+      apply BI_bal_rej; [exact HB | exact Hwf |]. intros Hc1 Hany.
+      destruct (Hmode Hc1 Hany) as [HB1 (p & Hp & Hn0 & Hlt1)]. split; [exact HB1|]. split.
+      * intros p' t' Hp' Hbal. rewrite Hp in Hp'. injection Hp' as Hp'. subst p'.
+        unfold balanced_atom in Hbal. rewrite <- Hn0, Ez in Hbal. discriminate Hbal.
+      * intros j t' Hpart. rewrite (Hpm Hc1 Hany) in Hpart.
+        destruct (zero3 n); [discriminate Ezn | discriminate Hpart].
+    + (* propose deleting the atom and its partner *)
+      assert (Hsc : 0 <= p_chunk_size s * s_count (p_summary s) (p_i1 s) rhs).
+      { assert (H0 : 0 <= s_count (p_summary s) (p_i1 s) rhs) by (unfold s_count; apply zlen_nonneg).
+        nia. }
+      assert (Hr1 : 0 <= Z.min (tc_len best)
+                          (p_chunk_start s + p_chunk_size s * s_count (p_summary s) (p_i1 s) rhs)
+                    <= Z.min (tc_len best)
+                         (Z.min (tc_len best)
+                            (p_chunk_start s + p_chunk_size s * s_count (p_summary s) (p_i1 s) rhs)
+                          + p_chunk_size s)) by lia.
+      match goal with |- context [rmslice best ?a ?b] =>
+        destruct (rmslice best a b) as [t1|e1] eqn:E1 end; cbn [bind]; [|exact I].
+      destruct (rmslice t1 (p_chunk_start s) (Z.min (tc_len best) (p_chunk_start s + p_chunk_size s)))
+        as [t|e2] eqn:E2; [|exact I].
+      destruct (rm_nonneg best _ _ t1 Hwf Hr1 E1) as (Hwf1 & Hsub1 & Hlen1 & Hne1 & _).
+      destruct (rm_nonneg t1 _ _ t Hwf1 Hr2 E2) as (Hwft & Hsub2 & _ & _ & Hlt2).
+      split; [exact (sub_reducible_trans _ _ _ Hsub1 Hsub2)|].
+      split; [|apply BI_bal_true; exact HB].
+      intros o Ho Hf.
+      assert (Hrej : BI (bal_next s (p_any s) (p_summary s) (p_chunk_start s + p_chunk_size s)) best).
+      { apply BI_bal_rej; [exact HB | exact Hwf |]. intros Hc1 Hany.
+        destruct (Hmode Hc1 Hany) as [HB1 (p & Hp & Hn0 & Hlt1)]. split; [exact HB1|].
+        destruct HB1 as [Hsum Htab Hcs Hl Hcov]. split.
+        - intros p' t' Hp' Hbal. rewrite Hp in Hp'. injection Hp' as Hp'. subst p'.
+          unfold balanced_atom in Hbal. rewrite <- Hn0, Ez in Hbal. discriminate Hbal.
+        - intros j t' Hpart Hrm. pose proof (Hpm Hc1 Hany) as Hpa.
+          destruct (zero3 n); [|discriminate Ezn].
+          rewrite Hpa in Hpart. injection Hpart as Hpart. subst j.
+          destruct (partner_range _ _ _ Hl Hpa) as [Hlr Hrl].
+          assert (Hsc' : s_count (p_summary s) (p_i1 s) rhs = rhs - p_i1 s)
+            by (rewrite Hsum; apply s_count_alltrue; lia).
+          assert (HRS : Z.min (tc_len best)
+                          (p_chunk_start s + p_chunk_size s * s_count (p_summary s) (p_i1 s) rhs)
+                        = rhs) by (rewrite Hsc', Hc1; lia).
+          rewrite HRS in *.
+          replace (Z.min (tc_len best) (rhs + p_chunk_size s)) with (rhs + 1) in * by lia.
+          rewrite Hcs in E2.
+          replace (Z.min (tc_len best) (p_i1 s + p_chunk_size s)) with (p_i1 s + 1) in E2 by lia.
+          unfold rm2 in Hrm. rewrite E1 in Hrm. cbn [bind] in Hrm. rewrite E2 in Hrm.
+          injection Hrm as Hrm. subst t'. apply Hf.
+          pose proof (sub_reducible_content_le _ _ Hwf Hsub1) as Hle.
+          specialize (Hlt2 (Hne1 Hne) ltac:(lia)). lia. }
+      destruct o as [|[|]]; [exact Hrej | exfalso; apply Ho; reflexivity | exact Hrej].
+Qed.
+
+Lemma balanced_pdrive : forall cfg clk, c_repeat cfg <> Never ->
+  forall fuel s best, BI s best -> wf best -> all_reducible best -> nonempty_parts best ->
+  match pdrive fuel KBalanced cfg clk s best with
+  | Done => pf_balanced_fixpoint f best
+  | Propose t k =>
+      sub_reducible best t /\
+      (forall o, o <> Tested true ->
+         ((length (content t) < length (content best))%nat -> f (content t) = false) ->
+         BI (k o) best) /\
+      BI (k (Tested true)) t
+  | RawWrite _ _ => False
+  | Fail _ => True
+  end.
+Proof.
+  intros cfg clk Hrep fuel. induction fuel as [|fuel IH]; intros s best HI Hwf Hall Hne;
+    cbn [pdrive]; [exact I|].
+  pose proof HI as [HB HP].
+  destruct (p_phase s) eqn:Hph.
+  - destruct (pass_start KBalanced s best) as [s'|e] eqn:Eps; [|exact I].
+    apply IH; try assumption. exact (balanced_pass_start s best s' HB Hwf Hall Eps).
+  - destruct (p_chunk_start s <? tc_len best) eqn:Ec; cbn [negb].
+    + rewrite (read_clock_none clk s (pb_dead _ HB)). cbv beta iota.
+      pose proof (balanced_body_ok s best HI Hph ltac:(lia) Hwf Hall Hne) as Hb.
+      destruct (balanced_body s best) as [st|s2].
+      * destruct st as [t k|b s'| |e]; [exact Hb | exact Hb | destruct Hb | exact Hb].
+      * apply IH; assumption.
+    + apply IH; try assumption. split; [apply PB_set_pp; exact HB|]. pcbn.
+      intros Hc1 Hany. destruct (HP Hc1 Hany) as [Hsum Htab Hcs Hl Hcov].
+      apply cov_all_fixpoint. intros i Hi. apply Hcov. lia.
+  - destruct (after_pass cfg clk s) as [s'|] eqn:Ea.
+    + apply IH; try assumption. destruct (after_pass_some cfg clk s s' HB Ea) as [HB' Hp'].
+      split; [exact HB'|]. rewrite Hp'. exact I.
+    + destruct (after_pass_none cfg clk s HB Hrep Ea) as [Hc1 Hany]. exact (HP Hc1 Hany).
+Qed.
+
+End Balanced.
+
+Theorem balanced_stops_at_fixpoint :
+  forall cfg clk f tc0 file0 fuel rc w,
+    wf tc0 -> all_reducible tc0 -> Forall (fun p => p <> []) (tc_parts tc0) -> content tc0 = file0 ->
+    c_min cfg = 1 -> is_power_of_two (c_max cfg) = true -> c_repeat cfg <> Never ->
+    c_limit cfg = None -> f file0 = true ->
+    run (pairs KBalanced cfg clk) (det f) fuel tc0 file0 = Finished rc w ->
+    exists tf, sub_reducible tc0 tf /\ w_file w = content tf /\ f (content tf) = true /\
+               pf_balanced_fixpoint f tf.
+Proof.
+  intros cfg clk f tc0 file0 fuel rc w Hwf Hall Hne Hc Hmin Hmax Hrep Hlim Hf Hrun.
+  apply (generic_fixpoint f pstate (pairs KBalanced cfg clk) (BI f) all_reducible
+           (pf_balanced_fixpoint f)) with (file0 := file0) (fuel := fuel) (rc := rc);
+    try assumption.
+  - exact all_red_sub.
+  - intros st best HI Hwfb Hneb Hallb.
+    change (s_next (pairs KBalanced cfg clk) st best)
+      with (pdrive (pairs_fuel st best) KBalanced cfg clk st best).
+    exact (balanced_pdrive f cfg clk Hrep (pairs_fuel st best) st best HI Hwfb Hallb Hneb).
+  - destruct (pstart_PB cfg clk tc0 Hmin Hmax Hlim) as [HB Hp].
+    split; [exact HB|]. change (s_start (pairs KBalanced cfg clk) tc0) with (pstart cfg clk tc0).
+    rewrite Hp. exact I.
+  - intros Hl H2. lia.
+Qed.
+
+Print Assumptions around_stops_at_fixpoint.
+Print Assumptions balanced_stops_at_fixpoint.
